@@ -146,4 +146,230 @@ theorem taint_confined_configs_partial {P : String → Prop} (hx : P extKey) (hc
     | panic s => rw [hs] at h; simp [Out.bind] at h
   · cases h
 
+/-! ## the default rendering -/
+
+theorem AllStrKV_mapVals {P : String → Prop} {f : FileObj → Val} :
+    ∀ {l : List (String × FileObj)}, (∀ e ∈ l, P e.1 ∧ AllStr P (f e.2)) → AllStrKV P (mapVals f l)
+  | [], _ => by simp [mapVals, AllStrKV]
+  | (n, o) :: r, h => by
+    simp only [List.forall_mem_cons] at h
+    simp only [mapVals, List.map, AllStrKV]
+    exact ⟨h.1.1, h.1.2, AllStrKV_mapVals h.2⟩
+
+theorem AllStrKV_sectionKV {P : String → Prop} {k : String} {m : KVs} (hk : P k) (hm : AllStrKV P m) : AllStrKV P (sectionKV k m) := by
+  unfold sectionKV
+  split
+  · simp [AllStrKV]
+  · simp [AllStrKV, AllStr, hk, hm]
+
+/-- what the theorems assume about `P`: it holds of every key the loader and the renderers write themselves -/
+structure VocabOk (P : String → Prop) : Prop where
+  vocab : ∀ k ∈ vocabulary, P k
+  carriers : ∀ k ∈ carrierKeys, P k
+
+/-- **render_default_clean (secrets, full strength)**: for every model, every environment and both renderers,
+the default rendering of every loaded secret is untainted: the value never reaches it -/
+theorem render_default_clean_secrets {P : String → Prop} (hv : VocabOk P)
+    {env : Env} {pname : String} {dict : KVs} (hd : AllStrKV P dict) (hgen : GenNamesOk P pname "secrets" dict)
+    {p : Proj} (h : load env pname dict = .ok p) (r : Renderer) :
+    AllStrKV P (mapVals (renderSecret r) p.secrets) := by
+  unfold load at h
+  cases hs : loadSection true env pname dict with
+  | ok ss =>
+    rw [hs] at h
+    simp only [Out.bind] at h
+    cases hc : loadSection false env pname dict with
+    | ok cs =>
+      rw [hc] at h
+      simp only [Out.bind] at h
+      cases h
+      have := taint_confined_secrets (hv.carriers _ (by decide)) (hv.carriers _ (by decide)) (hv.carriers _ (by decide)) hd hgen hs
+      exact AllStrKV_mapVals fun e he => ⟨(this e he).1, AllStr_renderSecret hv.vocab (this e he).2.1 (this e he).2.2 r⟩
+    | err e => rw [hc] at h; simp [Out.bind] at h
+    | panic s => rw [hc] at h; simp [Out.bind] at h
+  | err e => rw [hs] at h; simp [Out.bind] at h
+  | panic s => rw [hs] at h; simp [Out.bind] at h
+
+/-- **render_default_clean (whole project)**: the default YAML and JSON renderings of the secrets and configs
+sections are untainted, for every model shape — provided no config names the empty variable as its source
+(the unrestricted statement is false: `Neg/C20.lean`) -/
+theorem render_default_clean_partial {P : String → Prop} (hv : VocabOk P)
+    {env : Env} {pname : String} {dict : KVs} (hd : AllStrKV P dict)
+    (hgs : GenNamesOk P pname "secrets" dict) (hgc : GenNamesOk P pname "configs" dict) (hne : NoEmptySource dict)
+    {p : Proj} (h : load env pname dict = .ok p) (r : Renderer) :
+    AllStr P (render r false p) := by
+  have hsec := render_default_clean_secrets hv hd hgs h r
+  unfold load at h
+  cases hs : loadSection true env pname dict with
+  | ok ss =>
+    rw [hs] at h
+    simp only [Out.bind] at h
+    cases hc : loadSection false env pname dict with
+    | ok cs =>
+      rw [hc] at h
+      simp only [Out.bind] at h
+      cases h
+      have hcfg := taint_confined_configs_partial (hv.carriers _ (by decide)) (hv.carriers _ (by decide)) (hv.carriers _ (by decide)) hd hgc hne hc
+      simp only [render, applyOpts, Bool.false_eq_true, if_false, AllStr]
+      refine AllStrKV_append (AllStrKV_sectionKV (hv.vocab _ (by decide)) hsec) (AllStrKV_sectionKV (hv.vocab _ (by decide)) ?_)
+      exact AllStrKV_mapVals fun e he => ⟨(hcfg e he).1, AllStr_renderConfig hv.vocab (hcfg e he).2.1 (hcfg e he).2.2 r⟩
+    | err e => rw [hc] at h; simp [Out.bind] at h
+    | panic s => rw [hc] at h; simp [Out.bind] at h
+  | err e => rw [hs] at h; simp [Out.bind] at h
+  | panic s => rw [hs] at h; simp [Out.bind] at h
+
+/-- the statement of the property: a canary that occurs nowhere in the model (and not in the fixed vocabulary or
+the generated resource names) occurs nowhere in the default rendering, whatever the environment holds -/
+theorem canary_absent_from_default_rendering_partial (c : List Char)
+    (hv : VocabOk (fun s => ¬ occurs c s))
+    {env : Env} {pname : String} {dict : KVs} (hd : Clean c (.map dict))
+    (hgs : GenNamesOk (fun s => ¬ occurs c s) pname "secrets" dict)
+    (hgc : GenNamesOk (fun s => ¬ occurs c s) pname "configs" dict) (hne : NoEmptySource dict)
+    {p : Proj} (h : load env pname dict = .ok p) (r : Renderer) :
+    Clean c (render r false p) :=
+  render_default_clean_partial hv (by simpa [Clean, AllStr] using hd) hgs hgc hne h r
+
+/-! ## configs render their source; requested content is exact; the value is available -/
+
+theorem lookup_append_left {k : String} {v : Val} : ∀ {a : KVs} (b : KVs), lookup k a = some v → lookup k (a ++ b) = some v
+  | [], _, h => by simp [lookup] at h
+  | (k', v') :: r, b, h => by
+    by_cases hk : k = k'
+    · simpa [lookup, hk] using h
+    · simp only [lookup, if_neg hk, List.cons_append] at h ⊢
+      exact lookup_append_left b h
+
+theorem lookup_append_right {k : String} : ∀ {a : KVs} (b : KVs), lookup k a = none → lookup k (a ++ b) = lookup k b
+  | [], _, _ => by simp
+  | (k', v') :: r, b, h => by
+    by_cases hk : k = k'
+    · simp [lookup, hk] at h
+    · simp only [lookup, if_neg hk, List.cons_append] at h ⊢
+      exact lookup_append_right b h
+
+theorem lookup_optStr_ne {k k' s : String} (h : k ≠ k') : lookup k (optStr k' s) = none := by
+  unfold optStr; split <;> simp [lookup, h]
+
+theorem lookup_optStr_self {k s : String} (h : s ≠ "") : lookup k (optStr k s) = some (.str s) := by
+  simp [optStr, h, lookup]
+
+theorem lookup_optStr_empty {k k' : String} : lookup k (optStr k' "") = none := by simp [optStr, lookup]
+
+/-- the `environment` and `content` entries among the rendered struct fields -/
+theorem fields_environment (o : FileObj) (h : o.environment ≠ "") : lookup "environment" o.fields = some (.str o.environment) := by
+  unfold FileObj.fields
+  repeat rw [List.append_assoc]
+  rw [lookup_append_right _ (lookup_optStr_ne (by decide)), lookup_append_right _ (lookup_optStr_ne (by decide))]
+  exact lookup_append_left _ (lookup_optStr_self h)
+
+theorem fields_content (o : FileObj) :
+    lookup "content" o.fields = if o.content = "" then none else some (.str o.content) := by
+  unfold FileObj.fields
+  repeat rw [List.append_assoc]
+  rw [lookup_append_right _ (lookup_optStr_ne (by decide)), lookup_append_right _ (lookup_optStr_ne (by decide)),
+    lookup_append_right _ (lookup_optStr_ne (by decide))]
+  by_cases h : o.content = ""
+  · rw [if_pos h, h, lookup_append_right _ lookup_optStr_empty]
+    have hb : lookup "content" (optBool "external" o.external) = none := by unfold optBool; split <;> simp [lookup]
+    have hm : ∀ k m, k ≠ "content" → lookup "content" (optStrMap k m) = none := by
+      intro k m hk; unfold optStrMap; split <;> simp [lookup, Ne.symm hk]
+    rw [lookup_append_right _ hb, lookup_append_right _ (hm _ _ (by decide)), lookup_append_right _ (lookup_optStr_ne (by decide)),
+      lookup_append_right _ (hm _ _ (by decide))]
+    exact lookup_optStr_ne (by decide)
+  · rw [if_neg h]
+    exact lookup_append_left _ (lookup_optStr_self h)
+
+/-- **config_renders_source**: a config with a (named) source variable renders `environment: VAR` and no
+`content`, in both renderers and whatever its `Content` holds -/
+theorem config_renders_source (o : FileObj) (h : o.environment ≠ "") (r : Renderer) :
+    ∃ kvs, renderConfig r o = .map kvs ∧ lookup "environment" kvs = some (.str o.environment) ∧
+      (r = .json ∨ lookup "content" o.extensions = none → lookup "content" kvs = none) := by
+  have hb : configBlank o = { o with content := "" } := by simp [configBlank, h]
+  have he := fields_environment { o with content := "" } h
+  have hc := fields_content { o with content := "" }
+  simp only [if_true] at hc
+  cases r with
+  | yaml =>
+    refine ⟨({ o with content := "" } : FileObj).fields ++ o.extensions,
+      by simp only [renderConfig, configYaml, hb, FileObj.toYaml], lookup_append_left _ he, ?_⟩
+    intro hx
+    rcases hx with hx | hx
+    · cases hx
+    · rw [lookup_append_right _ hc]; exact hx
+  | json =>
+    exact ⟨({ o with content := "" } : FileObj).fields, by simp only [renderConfig, configJson, hb, FileObj.toJson], he, fun _ => hc⟩
+
+/-- **render_with_content_exact** (typed): with the flag set, a secret renders exactly its `Content`
+(and nothing when the value is empty), in both renderers -/
+theorem render_with_content_exact (o : FileObj) (r : Renderer) :
+    ∃ kvs, renderSecret r { o with marshallContent := true } = .map kvs ∧
+      lookup "content" kvs = if o.content = "" then (match r with | .yaml => lookup "content" o.extensions | .json => none)
+        else some (.str o.content) := by
+  have hb : secretBlank { o with marshallContent := true } = { o with marshallContent := true } := by simp [secretBlank]
+  have hc := fields_content { o with marshallContent := true }
+  cases r with
+  | yaml =>
+    refine ⟨({ o with marshallContent := true } : FileObj).fields ++ o.extensions,
+      by simp only [renderSecret, secretYaml, hb, FileObj.toYaml], ?_⟩
+    by_cases h : o.content = ""
+    · simp only [h, if_true] at hc ⊢
+      rw [lookup_append_right _ hc]
+    · simp only [h, if_false] at hc ⊢
+      exact lookup_append_left _ hc
+  | json =>
+    refine ⟨({ o with marshallContent := true } : FileObj).fields, by simp only [renderSecret, secretJson, hb, FileObj.toJson], ?_⟩
+    by_cases h : o.content = "" <;> simpa [h] using hc
+
+/-- `WithSecretContent` sets the flag of every secret of the rendered copy -/
+theorem withContent_sets_flags (p : Proj) : ∀ e ∈ (applyOpts true p).secrets, e.2.marshallContent = true := by
+  simp only [applyOpts, if_true, withContent]
+  intro e he
+  simp only [List.mem_map] at he
+  obtain ⟨e0, _, rfl⟩ := he
+  rfl
+
+/-- neither rendering mode changes what the default mode renders afterwards: `applyOpts` is applied to a copy -/
+theorem render_default_unaffected_by_options (p : Proj) : applyOpts false p = p := by simp [applyOpts]
+
+/-! ## render_pure: `marshallOptions.apply` on the heap -/
+
+theorem Heap.get_set_ne (h : Heap) {a b : Nat} (hab : a ≠ b) (m : List (String × FileObj)) : (h.set b m).get a = h.get a := by
+  unfold Heap.get Heap.set
+  simp only [List.lookup]
+  have : (a == b) = false := by simpa using hab
+  simp only [this]
+  congr 1
+  induction h.maps with
+  | nil => rfl
+  | cons e r ih =>
+    by_cases he : e.1 = b
+    · have hea : (a == e.1) = false := by simpa [he] using hab
+      obtain ⟨e1, e2⟩ := e
+      simp only at he hea
+      simp [List.filter, he, ih, List.lookup, hea, this]
+    · have : (e.1 != b) = true := by simpa using he
+      simp only [List.filter, this, List.lookup]
+      split <;> simp [ih]
+
+/-- a heap whose allocated addresses are all below `next` -/
+def Heap.WF (h : Heap) : Prop := ∀ e ∈ h.maps, e.1 < h.next
+
+/-- **render_pure**: whichever option is given, the receiver's `Secrets` map holds after `apply` exactly what it
+held before (the flags are flipped on the deep copy) -/
+theorem render_pure (b : Bool) (h : Heap) (p : Nat) (hp : p < h.next) : (applyHeap b h p).1.get p = h.get p := by
+  unfold applyHeap
+  split
+  · simp only [Heap.copyMap]
+    rw [Heap.get_set_ne _ (Nat.ne_of_lt hp)]
+    have : (p == h.next) = false := by simpa using Nat.ne_of_lt hp
+    simp [Heap.get, List.lookup, this]
+  · rfl
+
+/-- with content requested the project that is encoded is a *different* map, all of whose flags are set;
+without, it is the receiver itself -/
+theorem apply_result (h : Heap) (p : Nat) :
+    (applyHeap true h p).2 = h.next ∧ (applyHeap true h p).1.get h.next = setFlags (h.get p) ∧ (applyHeap false h p) = (h, p) := by
+  refine ⟨rfl, ?_, rfl⟩
+  simp [applyHeap, Heap.copyMap, Heap.set, Heap.get, List.lookup]
+
 end CV.Secrets
